@@ -130,8 +130,9 @@ prop('C01', 'no use-after-free',
 
 
 prop('C02', 'exact ownership accounting',
-     [L.rule_ledger, L.rule_bypass, R.rule_pay_used, O.rule_pay_cas, R.rule_slot_closed],
-     'Decides: on every normal path of every function that touches the raw-pointer/owned-value bridge the number of '
+     [L.rule_ledger, L.rule_bypass, R.rule_pay_used, O.rule_pay_cas, R.rule_slot_closed, _ord_c01],
+     'The count a guard borrows is exact only if the writer that replaces the value SEES the guard\'s debt: both halves of the two '
+     'store-buffering pairs keep their SeqCst floor (ORD, the Dekker roles). Decides: on every normal path of every function that touches the raw-pointer/owned-value bridge the number of '
      'reference counts taken equals the number given back (LEDGER; loops by equal balance at the back edge; the one '
      'declared non-zero exit is the hand-over), no count is taken on a pointer whose protection was already returned '
      '(INC-PROTECTED), ownership-bypassing primitives occur only in the admitted idioms (BYPASS), every pay() outcome '
@@ -249,7 +250,7 @@ def _inc_protected(fx, col):
 
 PROPERTIES['C01']['run'] = _run([R.rule_publish_confirm, R.rule_intent_first, R.rule_pay_before_release, R.rule_cover_all,
                                  P.rule_never_freed, R.rule_claim_empty, _ord_c01, _inc_protected, _core])
-PROPERTIES['C02']['run'] = _run([L.rule_ledger, L.rule_bypass, R.rule_pay_used, O.rule_pay_cas, R.rule_slot_closed, R.rule_cover_all, A.rule_no_stash, _core])
+PROPERTIES['C02']['run'] = _run([L.rule_ledger, L.rule_bypass, R.rule_pay_used, O.rule_pay_cas, R.rule_slot_closed, R.rule_cover_all, A.rule_no_stash, _ord_c01, _core])
 
 prop('C03', 'loads are linearizable (provenance clause)',
      [R.rule_publish_confirm, R.rule_confirmed_origin, R.rule_intent_first, I.rule_addr_guard, I.rule_addr_before_gen, I.rule_own_storage, R.rule_pay_before_release, A.rule_no_stash, _ord_seq],
